@@ -10,6 +10,7 @@ import (
 	"github.com/KevoDB/kevo/pkg/common/iterator/composite"
 	"github.com/KevoDB/kevo/pkg/config"
 	"github.com/KevoDB/kevo/pkg/sstable"
+	"github.com/KevoDB/kevo/pkg/verifhook"
 )
 
 // DefaultCompactionExecutor handles the actual compaction process
@@ -48,6 +49,8 @@ func (e *DefaultCompactionExecutor) CompactFiles(task *CompactionTask) ([]string
 		}
 	}
 
+	verifhook.At2("cmp.task", uint64(len(iterators)), uint64(task.TargetLevel))
+
 	// Create hierarchical merged iterator
 	mergedIter := composite.NewHierarchicalIterator(iterators)
 
@@ -66,6 +69,7 @@ func (e *DefaultCompactionExecutor) CompactFiles(task *CompactionTask) ([]string
 				return fmt.Errorf("failed to finish SSTable: %w", err)
 			}
 			outputFiles = append(outputFiles, currentOutputPath)
+			verifhook.At1("cmp.output.finished", uint64(len(outputFiles)))
 		}
 
 		// Create a new output file
@@ -158,10 +162,13 @@ func (e *DefaultCompactionExecutor) CompactFiles(task *CompactionTask) ([]string
 			return nil, fmt.Errorf("failed to finish SSTable: %w", err)
 		}
 		outputFiles = append(outputFiles, currentOutputPath)
+		verifhook.At1("cmp.output.finished", uint64(len(outputFiles)))
 	} else if currentWriter != nil {
 		// No entries were written, abort the file
 		currentWriter.Abort()
 	}
+
+	verifhook.At1("cmp.outputs.done", uint64(len(outputFiles)))
 
 	return outputFiles, nil
 }
@@ -169,9 +176,11 @@ func (e *DefaultCompactionExecutor) CompactFiles(task *CompactionTask) ([]string
 // DeleteCompactedFiles removes the input files that were successfully compacted
 func (e *DefaultCompactionExecutor) DeleteCompactedFiles(filePaths []string) error {
 	for _, path := range filePaths {
+		verifhook.At("cmp.input.delete.pre")
 		if err := os.Remove(path); err != nil {
 			return fmt.Errorf("failed to delete compacted file %s: %w", path, err)
 		}
+		verifhook.At("cmp.input.deleted")
 	}
 	return nil
 }
